@@ -180,6 +180,10 @@ func genRounds(r *Rand, nRounds int, eedPct, envPct int, hooks bool) []rRound {
 					st |= 2
 				}
 				items = append(items, rItem{K: "eed", Status: st, N: next()})
+				if r.Pct(15) {
+					// the same message once more, identical in every field: it is a second message
+					items = append(items, items[len(items)-1])
+				}
 			}
 			if r.Pct(envPct) {
 				n := r.Intn(4)
@@ -1036,16 +1040,24 @@ func (c11) Run(plan interface{}, schedSeed uint64, replay []simrt.Choice, lenien
 			}
 		}
 		// a hook registered concurrently must at least never see a message twice or out of order
+		sent := map[string]int{} // a message the server sends twice is two messages
+		for _, rd := range p.Rounds {
+			for _, it := range rd.Items {
+				if it.K == "eed" && !it.infoEED() {
+					sent[it.describe()]++
+				}
+			}
+		}
 		for id := range conc {
-			seen := map[string]bool{}
+			seen := map[string]int{}
 			last := 0
 			for _, d := range gotEED[id] {
 				var n int
 				fmt.Sscanf(d, "EED n=%d", &n)
-				if seen[d] || n < last {
+				seen[d]++
+				if seen[d] > sent[d] || n < last {
 					v.Violate("eed-hook", "concurrently registered hook saw a message twice or out of order", "hook %d saw %v", id, gotEED[id])
 				}
-				seen[d] = true
 				last = n
 			}
 		}
